@@ -85,7 +85,7 @@ class ReadBuf:
         return self._parse_mpint(v, pad, f)
 
     def read_line(self) -> str:
-        return self._buf.readline().rstrip().decode('utf-8', 'replace')
+        return self._buf.readline().rstrip(b'\r\n').decode('utf-8', 'replace')
 
     def reset(self) -> None:
         self._buf = io.BytesIO()
